@@ -27,7 +27,53 @@ def goenv():
     return e
 
 
-def gen_overlay():
+SKEW_FN = '''
+// verifSkewSec shifts the wall clock reported by Now: fault injection for the determinism monitor
+// (C19 runs one replica whose wall clock is years away from the others').
+var verifSkewSec = func() int64 {
+	s, ok := syscall.Getenv("VERIF_TIME_SKEW_SEC")
+	if !ok || s == "" {
+		return 0
+	}
+	neg := false
+	var n int64
+	for i, c := range []byte(s) {
+		if i == 0 && c == '-' {
+			neg = true
+			continue
+		}
+		if c < '0' || c > '9' {
+			return 0
+		}
+		n = n*10 + int64(c-'0')
+	}
+	if neg {
+		n = -n
+	}
+	return n
+}()
+'''
+
+
+def skewed_time_source():
+    """A copy of the toolchain's time/time.go whose Now() adds VERIF_TIME_SKEW_SEC seconds; None if the
+    file does not look as expected (then the skewed replica is simply not run)."""
+    p = subprocess.run(["go", "env", "GOROOT"], env=goenv(), stdout=subprocess.PIPE, text=True)
+    src_path = os.path.join(p.stdout.strip(), "src", "time", "time.go")
+    try:
+        with open(src_path) as fh:
+            src = fh.read()
+    except OSError:
+        return None, None
+    a = 'import (\n\t"errors"'
+    b = 'func Now() Time {\n\tsec, nsec, mono := now()\n'
+    if src.count(a) != 1 or src.count(b) != 1 or '"syscall"' in src.split(")")[0]:
+        return None, None
+    src = src.replace(a, a + '\n\t"syscall"', 1).replace(b, b + "\tsec += verifSkewSec\n", 1) + SKEW_FN
+    return src_path, src
+
+
+def gen_overlay(skew=False):
     os.makedirs(BUILD, exist_ok=True)
     rep = {}
     hroot = os.path.join(VERIF, "harness")
@@ -42,7 +88,21 @@ def gen_overlay():
         with open(stub, "w") as fh:
             fh.write("package statik\n")
         rep[statik] = stub
-    path = os.path.join(BUILD, "overlay.json")
+    if skew:
+        src_path, src = skewed_time_source()
+        if src is None:
+            return None
+        os.makedirs(os.path.join(BUILD, "skew"), exist_ok=True)
+        sp = os.path.join(BUILD, "skew", "time_skew.go.txt")
+        old = None
+        if os.path.exists(sp):
+            with open(sp) as fh:
+                old = fh.read()
+        if old != src:
+            with open(sp, "w") as fh:
+                fh.write(src)
+        rep[src_path] = sp
+    path = os.path.join(BUILD, "overlay-skew.json" if skew else "overlay.json")
     tmp = path + ".%d.tmp" % os.getpid()
     with open(tmp, "w") as fh:
         json.dump({"Replace": rep}, fh, indent=0)
@@ -50,13 +110,16 @@ def gen_overlay():
     return path
 
 
-def build(binary, race=False):
-    """(Re)build harness binary `binary` against the current /repo tree."""
+def build(binary, race=False, skew=False):
+    """(Re)build harness binary `binary` against the current /repo tree.
+    skew=True: the same binary with a wall clock that VERIF_TIME_SKEW_SEC shifts (time.Now patched through the overlay)."""
     os.makedirs(BUILD, exist_ok=True)
-    out = os.path.join(BUILD, binary + ("-race" if race else ""))
+    out = os.path.join(BUILD, binary + ("-race" if race else "") + ("-skew" if skew else ""))
     with open(os.path.join(BUILD, ".lock"), "w") as lk:
         fcntl.flock(lk, fcntl.LOCK_EX)
-        ov = gen_overlay()
+        ov = gen_overlay(skew)
+        if ov is None:
+            return None, 0.0
         cmd = ["go", "build", "-tags", "verif", "-overlay", ov, "-o", out]
         if race:
             cmd.append("-race")
@@ -174,8 +237,17 @@ def main():
         print("INCONCLUSIVE property=%s reason=build-failed" % prop)
         return 2
     results, problems, nsh = [], [], 0
+    extra_env = None
+    skew_note = None
+    if cfg.get("skew"):
+        sb, sbt = build(cfg["binary"], skew=True)
+        bt += sbt
+        if sb is None:
+            skew_note = "wall-clock-skewed replica NOT run: the skewed build failed or the toolchain's time.Now does not look as expected"
+        else:
+            extra_env = {"VERIF_SKEW_BIN": sb}
     if not (replay and replay.get("binary") and replay["binary"] != cfg["binary"]):
-        results, problems, nsh = run_shards(prop, cfg, tier, seed, binpath, replay)
+        results, problems, nsh = run_shards(prop, cfg, tier, seed, binpath, replay, extra_env=extra_env)
     # a property may have a second part hosted by another binary (e.g. C17: scripted subscribers in
     # `pure`, the real hook chain in `appmon`)
     for extra in cfg.get("also", []):
@@ -201,6 +273,8 @@ def main():
         results = results + race_info.get("results", [])
         problems = problems + race_info.get("problems", [])
     known = load_known()
+    if skew_note:
+        results.append({"notes": [skew_note]})
     evaluations = sum(r.get("evaluations", 0) for r in results)
     classes, counters, maxima, maxima_at, samples, notes = {}, {}, {}, {}, [], []
     rule = ""
